@@ -50,7 +50,10 @@ MUTANTS = [
 def build(ex):
     extlib.install_common(ex)
     repo = ex.repo
-    ex.ext_models['pickle.Pickler.__init__'] = lambda ex_, a, k: NONE
+    def pickler_init(ex_, a, k):
+        ex_.ghost['pickler_init'] = ex_.ghost.get('pickler_init', []) + [(list(a), dict(k))]
+        return NONE
+    ex.ext_models['pickle.Pickler.__init__'] = pickler_init
     is_type = z3.Function('is_type', Val, smt.Bool)
 
     def issubclass_hook(ex_, c, t):
@@ -99,9 +102,11 @@ def build(ex):
         def setup(ex_, env):
             common_setup(ex_, env)
             env['self'] = ex_.alloc(HObj(repo.cls(RP), {}))
-            env['args'] = VTuple([ex_.interp.sym('file')])
+            env['file'], env['proto'] = ex_.interp.sym('file'), ex_.interp.sym('protocol')
+            env['args'] = VTuple([env['file'], env['proto']])
             env['kwargs'] = ex_.alloc(HDict({}))
             env['remote'] = VBool(remote)
+            ex_.ghost['pickler_init'] = []
         tag = 'remote' if remote else 'local'
         def table_loc(ex_, fr, env):
             tv = ex_.heap[env['self'].addr].attrs['dispatch_table']
@@ -110,12 +115,33 @@ def build(ex):
                 return ('obj', th.attrs['__dictdata__'].addr)
             return ('obj', tv.addr)
         mods = [table_loc]
+
+        def base_gets_all(c):
+            ex_ = c.ex
+            rec = ex_.ghost['pickler_init']
+            if len(rec) != 1:
+                return z3.BoolVal(False)
+            a, k = rec[0]
+            flat = []
+            for x in a[1:]:
+                if isinstance(x, VStar):
+                    items = ex_.interp.iter_concrete(x.v)
+                    if items is None:
+                        return z3.BoolVal(False)
+                    flat += list(items)
+                else:
+                    flat.append(x)
+            if len(flat) != 2 or any(key not in ('**',) for key in k):
+                return z3.BoolVal(False)
+            conds = [ex_.interp.eq(flat[0], c.env['file']), ex_.interp.eq(flat[1], c.env['proto'])]
+            return z3.And(*[x if isinstance(x, z3.ExprRef) else z3.BoolVal(bool(x)) for x in conds])
+        base_gets_all.__doc__ = 'pickle.Pickler.__init__ is called once, with exactly the positional arguments given (file, protocol) and no option added'
         return Contract(
             RP + '.__init__', lid=f'L1a-{tag}',
             name=f'C13.L1a-{tag} RemotePickler(remote={remote}): the installed dispatch table agrees with copyreg.dispatch_table on every non-opt-in type',
             params={'self': ('const', None), 'args': ('const', None), 'remote': ('const', None), 'kwargs': ('const', None)},
             self_class=RP, setup=setup,
-            ensures=[agrees_with_copyreg, 'self._remote == remote'],
+            ensures=[agrees_with_copyreg, 'self._remote == remote', base_gets_all],
             raises={}, raises_only=[],
             loops={0: Loop(invariant=[agrees_with_copyreg], modifies=mods, variant='__n__ - __i__')},
             options={'__attr_kinds__': {'dispatch_table': 'symdict'}})
@@ -166,7 +192,82 @@ def build(ex):
         name='C13.Ls RemotePickler36 overrides no pickle.Pickler attribute other than __init__ (structural, re-read from the class body each run)',
         params={'obj': ('const', None)}, self_class=RP, setup=struct_setup,
         ensures=['n_overridden == 0'], raises={}, raises_only=[])
-    return [(init_contract(True), None), (init_contract(False), None), (L1b, None), (Ls, None)] + optin_lemmas(ex)
+    return [(init_contract(True), None), (init_contract(False), None), (L1b, None), (Ls, None)] + optin_lemmas(ex) + entry_lemmas(ex)
+
+
+def entry_lemmas(ex):
+    """L4: the module-level entry points dump / dumps build their pickler from exactly what the caller passed - file, protocol (0 is a protocol like any other),
+    remote flag, further options - and hand it the object; nothing is dropped or defaulted on the way (pickle.dumps(obj, protocol) is the reference)"""
+    out = []
+    MOD = 'pyworkers.remote_pickle'
+
+    def setup(with_file):
+        def su(ex_, env):
+            I = ex_.interp
+            ex_.ghost['made'] = []
+            ex_.ghost['dumped'] = []
+
+            def init_hook(i2, fi, a, k, n, s):
+                ex_.ghost['made'] = ex_.ghost['made'] + [(list(a), dict(k))]
+                return NONE
+            ex_.ghost['__call_hooks__'] = {RP + '.__init__': init_hook}
+
+            def dump_model(ex2, a, k):
+                ex2.ghost['dumped'] = ex2.ghost['dumped'] + [list(a)]
+                return NONE
+            ex_.ext_models['pickle.Pickler.dump'] = dump_model
+            ex_.ext_models['pickle._Pickler.dump'] = dump_model
+            from pyvc.contracts import AbsClass
+            ex_.abs_classes['BytesIO'] = AbsClass('BytesIO', fields={}, methods={'getvalue': lambda ex2, a, k: VSym(ex2.fresh('stream', Val))},
+                                                  text='io.BytesIO: an in-memory file; getvalue() returns what was written to it')
+            ex_.ext_models['io.BytesIO'] = lambda ex2, a, k: VAbs('BytesIO', Val.v_str(z3.IntVal(smt.str_code('<buffer>'))))
+            env['obj'] = I.sym('obj')
+            env['protocol'] = I.sym('protocol')
+            env['remote'] = I.sym('remote', 'bool')
+            env['kwargs'] = ex_.alloc(HDict({}))
+            if with_file:
+                env['file'] = I.sym('file')
+        return su
+
+    def built_as_asked(c):
+        ex_ = c.ex
+        made, dumped = ex_.ghost['made'], ex_.ghost['dumped']
+        if len(made) != 1 or len(dumped) != 1:
+            return z3.BoolVal(False)
+        a, k = made[0]
+        pos = [x for x in a[1:]]
+        flat = []
+        for x in pos:
+            if isinstance(x, VStar):
+                items = ex_.interp.iter_concrete(x.v)
+                if items is None:
+                    return z3.BoolVal(False)
+                flat += list(items)
+            else:
+                flat.append(x)
+        k = dict(k)
+        for key in list(k):
+            if key == '**':
+                d = ex_.heap[k.pop(key).addr]
+                k.update(getattr(d, 'items', {}))
+        # pickle.Pickler(file, protocol=None, ...): protocol is the second positional argument or the keyword
+        proto = flat[1] if len(flat) > 1 else k.get('protocol', NONE)
+        conds = [ex_.interp.eq(proto, c.env['protocol']), ex_.interp.eq(k.get('remote', VBool(True)), c.env['remote'])]
+        if 'file' in c.env:
+            conds.append(ex_.interp.eq(flat[0], c.env['file']) if flat else False)
+        d = dumped[0]
+        conds.append(ex_.interp.eq(d[-1], c.env['obj']) if d else False)
+        conds = [x if isinstance(x, z3.ExprRef) else z3.BoolVal(bool(x)) for x in conds]
+        return z3.And(*conds)
+    built_as_asked.__doc__ = ('exactly one pickler is built, with the protocol the caller passed (whatever it is: None, 0, ... - as pickle.dumps(obj, protocol) would), '
+                              'the remote flag the caller passed and, for dump, the caller\'s file; exactly the caller\'s object is dumped with it, once')
+    for fn, with_file in (('remote_dump', True), ('remote_dumps', False)):
+        params = {'obj': ('const', None), 'protocol': ('const', None), 'remote': ('const', None), 'kwargs': ('const', None)}
+        if with_file:
+            params['file'] = ('const', None)
+        out.append((Contract(f'{MOD}.{fn}', lid=f'L4-{fn}', name=f'C13.L4-{fn} {fn} builds its pickler from exactly the protocol / remote flag' + (' / file' if with_file else '') + ' it was given',
+                             params=params, setup=setup(with_file), ensures=[built_as_asked], raises={}, raises_only=[]), None))
+    return out
 
 
 def optin_lemmas(ex):
